@@ -141,6 +141,7 @@ def read_task(prop, cfg, tier, seed):
             opaque_sizes=dict(backing=lambda mo: mi(mo, bsize)) if bsize is not None else None,
             prefer=[l1_size <= 1 << 16], post_files=post_files)
         ctx.scenario.wide = [l1_off >= 1 << 40, offset >= 1 << 40]
+        ctx.scenario.small = [l1_size]
         if backing == "none":
             obj = m.QCow2(fh, data_file=dfh)
         else:
